@@ -100,7 +100,9 @@ func c25Single(cfg rvx.Cfg, w uint32, in model.Instruction, name string) *eng.Fa
 }
 
 func c25Pair(c c25Case) *eng.Fail {
-	ps := parsers[c.Cfg]
+	pset := getParsers()
+	defer putParsers(pset)
+	ps := pset[c.Cfg]
 	a, e1 := ps.Parse(c25PC, rvx.WordBytes(c.Word))
 	b, e2 := ps.Parse(c25PC, rvx.WordBytes(c.Other))
 	if e1 != nil || e2 != nil {
@@ -145,7 +147,9 @@ func init() {
 			}
 			r.Par(len(jobs), func(ji int) {
 				j := jobs[ji]
-				ps := parsers[j.cfg]
+				pset := getParsers()
+				defer putParsers(pset)
+				ps := pset[j.cfg]
 				type ent struct {
 					dig  [20]byte
 					word uint32
